@@ -1256,7 +1256,7 @@ func (r *replicateChannelHandler) getTSManagerChannelKey(channelName string) str
 func (r *replicateChannelHandler) innerHandleReplicateMsg(forward bool, msg *api.ReplicateMsg) {
 	msgPack := msg.MsgPack
 	p := r.handlePack(forward, msgPack, msg.TaskID)
-	if p == api.EmptyMsgPack {
+	if p == nil || p == api.EmptyMsgPack {
 		return
 	}
 	p.CollectionID = msg.CollectionID
